@@ -7,6 +7,7 @@
 From Coq Require Import List String Bool Arith.
 Import ListNotations.
 From SP Require Import Skel Gen Expected ExpectedCones Lockset.
+From SP Require TagShare.
 Open Scope string_scope.
 
 (* (1) two accesses of different threads that are both made while holding a common mutex are ordered by happens-before
@@ -103,6 +104,16 @@ Theorem C12_cone_conforms :
   && strs_eqb cone_InParamPort_CloseConnection exp_cone_InParamPort_CloseConnection = true.
 Proof. vm_compute. reflexivity. Qed.
 
+(* the second sentence of the property ("what one consumer does with an item it received is never observed half-done by a
+   sibling consumer of the same out-port") fails for a tagging component that returns two or more tags (finding D24): AddTags
+   takes the lock once per tag, and between two of them a sibling reads some of the tags and not the others.  No data race --
+   every access is under ip.lock, which is what the discipline theorems above establish -- but a half-done observation *)
+Theorem C12_shared_ip_half_done_refuted : forall (tag : Type) (init_tags new_tags : list tag), 2 <= List.length new_tags ->
+  exists l s, TagShare.run tag init_tags new_tags true (TagShare.init tag) l = Some s /\ TagShare.complete tag new_tags s /\
+              TagShare.view tag s = Some ((init_tags ++ firstn 1 new_tags)%list) /\
+              firstn 1 new_tags <> [] /\ firstn 1 new_tags <> new_tags.
+Proof. exact TagShare.shared_object_half_done. Qed.
+
 Print Assumptions C12_code_conforms.
 Print Assumptions C12_lockset_sound.
 Print Assumptions C12_discipline_tags.
@@ -112,3 +123,4 @@ Print Assumptions C12_no_writes_to_package_variables.
 Print Assumptions C12_tags_refuted_before_repair.
 Print Assumptions C12_feeder_refuted_before_repair.
 Print Assumptions C12_cone_conforms.
+Print Assumptions C12_shared_ip_half_done_refuted.
